@@ -295,35 +295,7 @@ func runC10(c *Ctx) {
 	}
 
 	r5 := c.Rule("R5", "decode failures on the read path are returned", 2)
-	for _, k := range []string{"common.nodeRepositoryBackend.get", "common.itemActionTracker.Get"} {
-		f := w.Fn(k)
-		g := w.G(f)
-		c.Analysed(f)
-		n := 0
-		for _, nd := range g.Nodes {
-			for _, cs := range nd.Calls {
-				if !strings.HasSuffix(cs.Key, ".Unmarshal") {
-					continue
-				}
-				n++
-				construct := fmt.Sprintf("%s: error of %s #%d is returned", shortKey(k), cs.Key, ordinalOf(w, f, cs))
-				fail, _, ok := g.ErrBranches(nd, cs)
-				if !ok {
-					c.Violated(r5, construct, cs.Call.Pos(), "the result of Unmarshal is discarded: a truncated or corrupt blob yields a zero-valued (empty) node/value that is then cached and served as if it were the stored data", nil)
-					continue
-				}
-				r := g.Reach(fail, isReturn, nil)
-				bad := false
-				for _, x := range g.Nodes {
-					if r.Seen[x.ID] && x.Ret != nil && g.ClassifyReturn(x) != RetNonNil {
-						bad = true
-					}
-				}
-				c.Check(!bad, r5, construct, cs.Call.Pos(), "failure edge returns the error", "a decode failure does not end in an error return", nil)
-			}
-		}
-		c.Check(n >= 1, r5, shortKey(k)+": decode sites", f.Decl.Pos(), fmt.Sprintf("%d", n), "no Unmarshal call found", nil)
-	}
+	decodeErrorsRule(c, r5)
 }
 
 func runC11(c *Ctx) {
@@ -389,5 +361,39 @@ func runC11(c *Ctx) {
 		consumer := w.Fn("common.itemActionTracker.getObsoleteTrackedItemsValues")
 		c.Analysed(consumer)
 		c.Check(len(w.usesOf(consumer, queue, false)) >= 1 && len(w.writesOf(consumer, queue, true)) == 0, r4, "getObsoleteTrackedItemsValues reads the deletion queue without consuming it", consumer.Decl.Pos(), "reads, does not write", "the consumer of the deletion queue no longer reads it (or clears it before phase 2 logs it)", nil)
+	}
+}
+
+// decodeErrorsRule (C10.R5, shared by C19.R2).
+func decodeErrorsRule(c *Ctx, r5 string) {
+	w := c.W
+	for _, k := range []string{"common.nodeRepositoryBackend.get", "common.itemActionTracker.Get"} {
+		f := w.Fn(k)
+		g := w.G(f)
+		c.Analysed(f)
+		n := 0
+		for _, nd := range g.Nodes {
+			for _, cs := range nd.Calls {
+				if !strings.HasSuffix(cs.Key, ".Unmarshal") {
+					continue
+				}
+				n++
+				construct := fmt.Sprintf("%s: error of %s #%d is returned", shortKey(k), cs.Key, ordinalOf(w, f, cs))
+				fail, _, ok := g.ErrBranches(nd, cs)
+				if !ok {
+					c.Violated(r5, construct, cs.Call.Pos(), "the result of Unmarshal is discarded: a truncated or corrupt blob yields a zero-valued (empty) node/value that is then cached and served as if it were the stored data", nil)
+					continue
+				}
+				r := g.Reach(fail, isReturn, nil)
+				bad := false
+				for _, x := range g.Nodes {
+					if r.Seen[x.ID] && x.Ret != nil && g.ClassifyReturn(x) != RetNonNil {
+						bad = true
+					}
+				}
+				c.Check(!bad, r5, construct, cs.Call.Pos(), "failure edge returns the error", "a decode failure does not end in an error return", nil)
+			}
+		}
+		c.Check(n >= 1, r5, shortKey(k)+": decode sites", f.Decl.Pos(), fmt.Sprintf("%d", n), "no Unmarshal call found", nil)
 	}
 }
